@@ -12,7 +12,8 @@ WrapperRefuses(c) == ~c.badProg /\ (InputFault(c) \/ (JsonWanted(c) /\ c.nfiles 
 Configs ==
   {c \in [progVia : {"inline", "file"}, nfiles : 0..2, same : BOOLEAN, nsel : 0..2, out : {"none", "dash", "path"},
           badProg : BOOLEAN, badAt : 0..2, badKind : {"none", "missing", "unreadable"},
-          stop : {"pool"} \cup StopsAll, alias : {"none", "input", "spelled", "symlink", "hardlink"}] :
+          stop : {"pool"} \cup StopsAll, alias : {"none", "input", "spelled", "symlink", "hardlink"},
+          pre : {"absent", "stale"}, ofault : {"none"} \cup OutFaults] :
      /\ c.badProg => c.progVia = "file"
      \* one path cannot be usable the first time and unusable the second
      /\ c.same => (c.nfiles = 2 /\ c.badAt <= 1)
@@ -21,8 +22,12 @@ Configs ==
      \* a refusal by the wrapper x every point at which the program may stop; else the programs of the pool
      /\ IF WrapperRefuses(c) THEN c.stop \in Stops(c.nfiles) ELSE c.stop = "pool"
      \* in place: -o names the one input file
-     /\ c.alias # "none" => (c.out = "path" /\ c.nfiles = 1 /\ c.badAt = 0 /\ ~c.badProg)}
-NShapes == Cardinality({[c EXCEPT !.stop = "pool", !.alias = "none"] : c \in Configs})
+     /\ c.alias # "none" => (c.out = "path" /\ c.nfiles = 1 /\ c.badAt = 0 /\ ~c.badProg)
+     \* a -o path of its own x what it holds beforehand: in every shape, also those the wrapper refuses
+     /\ c.pre = "stale" => (c.out = "path" /\ c.alias = "none" /\ c.ofault = "none")
+     \* a -o path that cannot be created / written x every shape that gets as far as the JSON step
+     /\ c.ofault # "none" => (c.out = "path" /\ c.alias = "none" /\ c.nfiles <= 1 /\ c.badAt = 0 /\ ~c.badProg)}
+NShapes == Cardinality({[c EXCEPT !.stop = "pool", !.alias = "none", !.pre = "absent", !.ofault = "none"] : c \in Configs})
 
 Init == \E c \in Configs : Start(c)
 Next == \E r \in LibResults : CliNext(r)
@@ -31,14 +36,18 @@ Spec == Init /\ [][Next]_cvars
 \* the laws are about the function Result only: evaluate them once, in the initial states
 Laws ==
   pc = "parse" => /\ LawProgVia({cfg}) /\ LawStdin({cfg}) /\ LawOutPath({cfg}) /\ LawOutBytes({cfg}) /\ LawErrors({cfg}) /\ LawSamePath({cfg})
-                  /\ LawStop({cfg}) /\ LawInPlace({cfg})
+                  /\ LawStop({cfg}) /\ LawInPlace({cfg}) /\ LawOutFault({cfg}) /\ LawPre({cfg})
 
 \* every command line shape is present
 Complete ==
   pc = "parse" =>
-    /\ NShapes = 324 /\ Cardinality(Configs) = 816
+    /\ NShapes = 324 /\ Cardinality(Configs) = 1128
     \* every refusal of the wrapper at every stop, every way of naming the input with -o
     /\ \A c \in Configs : WrapperRefuses(c) => \A s \in Stops(c.nfiles) : [c EXCEPT !.stop = s] \in Configs
+    \* every -o path of its own also with an earlier result in it; every fault of the path x -f / inline x stdin / file x selectors
+    /\ \A c \in Configs : (c.out = "path" /\ c.alias = "none" /\ c.ofault = "none") => [c EXCEPT !.pre = "stale"] \in Configs
+    /\ \A v \in {"inline", "file"}, n \in 0..1, s \in 0..2, f \in OutFaults :
+         \E c \in Configs : c.progVia = v /\ c.nfiles = n /\ c.nsel = s /\ c.out = "path" /\ c.ofault = f
     /\ \A v \in {"inline", "file"}, s \in 0..2, a \in {"input", "spelled", "symlink", "hardlink"} :
          \E c \in Configs : c.progVia = v /\ c.nfiles = 1 /\ c.nsel = s /\ c.out = "path" /\ c.alias = a
     /\ \A v \in {"inline", "file"}, s \in 0..2, o \in {"none", "dash", "path"} :
